@@ -145,6 +145,13 @@ fn layout_key(x: &tokcanon::Canon, f1: &str, t1: &emmylua_parser::LuaSyntaxTree,
 impl Property for C06 {
     type Case = FmtCase;
     type Local = ();
+    fn thorough_family(&self, _c: &Self::Case, f: &Fail) -> Option<String> {
+        if f.sig.starts_with("nonidempotent:") {
+            Some("family:formatter-nonidempotent-unclassified-shape".into())
+        } else {
+            None
+        }
+    }
     fn id(&self) -> &'static str {
         "C06"
     }
